@@ -291,24 +291,35 @@ def r04_init(ctx):
                     construct=f'{fn.qname}::queue')
 
 
-def r04_guard(ctx):
-    """feed_byte rejects non-bytes instead of corrupting the state."""
+def r04_guard(ctx, rule='R04.1'):
+    """feed_byte rejects non-bytes instead of corrupting the state: a refused call stores nothing - on a fresh tokenizer and
+    on one that is in the middle of a message or of a sysex."""
+    from ..absint import skey
+    from ..fold import ClassRef
     cls = ctx.p.cls(tokmodel.TOK_MOD, 'Tokenizer')
     o, fn = ctx.p.lookup_method(cls, 'feed_byte')
     ai = tokmodel.interp(ctx)
-    for bad, exc in ((-1, 'ValueError'), (256, 'ValueError'), (1000, 'ValueError')):
-        holder = {}
+    n = 0
+    for pre_name, pre in (('fresh', []), ('in a message', [0x90, 0x3c]), ('in a sysex', [0xf0, 1, 2]), ('after a message', [0x90, 0x3c, 0x40])):
+        for bad in (-1, 256, 1000):
+            holder = {}
+            n += 1
 
-        def thunk():
-            from ..fold import ClassRef
-            obj = ai.apply(ClassRef(cls), [], {}, None)          # a fresh tokenizer (whatever its fields are)
-            obj.stores.clear()
-            holder['obj'] = obj
-            return ai.call_function(fn, [obj, bad], {})
-        outs = ai.explore(thunk)
-        ok = all(o_.kind == 'raise' and o_.exc in ('ValueError', 'TypeError') for o_ in outs) and not holder['obj'].stores
-        ctx.require(ok, 'R04.1', f'feed_byte({bad})', ctx.where(fn), f'out-of-range byte outcomes {outs}',
-                    construct=f'{fn.qname}::reject-out-of-range')
+            def thunk():
+                obj = ai.apply(ClassRef(cls), [], {}, None)          # a tokenizer (whatever its fields are)
+                for b in pre:
+                    ai.call_function(fn, [obj, b], {})
+                obj.stores.clear()
+                holder['obj'] = obj
+                holder['before'] = skey(obj.attrs)
+                return ai.call_function(fn, [obj, bad], {})
+            outs = ai.explore(thunk)
+            ok = bool(outs) and all(o_.kind == 'raise' and o_.exc in ('ValueError', 'TypeError') for o_ in outs) and not holder['obj'].stores \
+                and skey(holder['obj'].attrs) == holder['before']
+            ctx.require(ok, rule, f'feed_byte({bad}) {pre_name}', ctx.where(fn),
+                        f'out-of-range byte {pre_name}: outcomes {outs}, stores {holder["obj"].stores!r:.200} (a refused byte must leave the state as it was)',
+                        construct=f'{fn.qname}::reject-out-of-range')
+    ctx.floor(rule + '-refused', n, 12)
 
 
 def r04_parser(ctx):
